@@ -11,8 +11,7 @@ open RV.C07
 #print axioms order_consistent_partial
 #print axioms order_consistent_witness
 #print axioms strOracle_sound
-#print axioms decode_shortEncode
-#print axioms decode_longEncode
+#print axioms escape_roundtrip
 #print axioms n3_roundtrip_partial
 #print axioms n3_roundtrip_any_lexical
 #print axioms n3_roundtrip_witness
@@ -23,7 +22,7 @@ open RV.C07
 #print axioms constructed_text_stable
 #print axioms old_reduce_renormalises
 #print axioms table_ordering
-#print axioms table_short_escapes
-#print axioms table_long_escapes
+#print axioms table_short_wf
+#print axioms table_long_wf
 #print axioms table_long_tails
 #print axioms table_invalid_chars
